@@ -1027,6 +1027,33 @@ def gen_facetless(rng, tier, add, pools):
                             add("facetless", a)
                             pairs.append((a, b))
 
+
+# canonical representation of float/double on the decimal-scientific model (values far from the strtod limits, so that
+# XSValue does not replace them by INF / 0): leading fraction zeros (finding F40), trailing zeros with and without a
+# point, signs, both exponent markers, exponent signs / leading zeros, zeros of every shape, the special values
+FLOAT_CANON = ["0.001", "0.01", "0.1", "1", "10", "100", "1.50", "0.0010", "00.001", "-0.001", ".001", "0.001E0", "1E-3", "0012.3400", "000",
+               "0.0", "-0", "+0.0", "100E2", "0100", "+5", "12.", ".5e1", "0.00100", "0.01E-1", "0.1E-2", "1.0E-3", "-.05e+07", "5e-0", "0e5",
+               "0.0e-3", "-0.000E12", "INF", "-INF", "NaN", "1.0E0", "9.99E2", "-1.0E-10", "1200e-2", "0.0E0", "1.E1", "123456789.0123456789",
+               "0.000000000000000000001", "100000000000000000000", "1e", "e1", ".", "-.", "1.2.3", "1E1E1", "+INF", "1e1.0"]
+
+
+def gen_float_canon(rng, tier, add, pools):
+    thorough = tier == "thorough"
+    lits = list(FLOAT_CANON)
+    for _ in range(1500 if thorough else 250):
+        ip = "".join(rng.choice("0000123456789") for _ in range(rng.randrange(0, 5)))
+        fp = "".join(rng.choice("0000123456789") for _ in range(rng.randrange(0, 6)))
+        m = rng.choice(["", "", "-", "+"]) + (ip + ("." + fp if (fp or rng.random() < 0.2) else "") if (ip or fp) else "0")
+        if rng.random() < 0.55:
+            m += rng.choice("eE") + rng.choice(["", "+", "-", "-", "-0", "00"]) + str(rng.randrange(0, 25))
+        lits.append(m)
+    for l in lits:
+        t = rng.choice(["double", "float"])
+        add("flt-canon", "xsc %s %s" % (t, hx(l)))
+        add("flt-canon", "can %s %s" % (t, hx(l)))
+    for l in rng.sample(lits, 20):
+        add("flt-canon", "xsc double " + hx(with_ws(rng, l)))
+
 # ------------------------------------------------------------------------------------------------------------
 def gen_cases(rng, tier):
     cases = []
@@ -1052,6 +1079,7 @@ def gen_cases(rng, tier):
     gen_canon_boundaries(rng, tier, add, pools)
     gen_combinators(rng, tier, add, pools)
     gen_facetless(rng, tier, add, pools)
+    gen_float_canon(rng, tier, add, pools)
     return cases, pools
 
 
@@ -1093,8 +1121,10 @@ def oracle_request(req):
         while k + n < len(u) and 0x30 <= u[k + n] <= 0x39:
             n += 1
         return None if n > 9 else "spec_date " + a[2]
-    if op in ("xsv", "pe", "pa") and a[1] in ("double", "float"):
+    if op in ("xsv", "pe", "pa", "xsc") and a[1] in ("double", "float"):
         return "spec_float " + a[2]
+    if op == "can" and a[1] in ("double", "float"):
+        return "spec_float " + a[2] if collapse(unhx(a[2])) == unhx(a[2]) else None
     if op == "cmp" and a[1] in ("double", "float"):
         return "spec_float_order %s %s" % (a[2], a[3])
     if op == "pc":
@@ -1237,6 +1267,18 @@ def attribute(req, mode):
         if any(t.startswith("-") for t in texts) or "=-" in facet:
             return "F37"            # negative durations go through time-zone normalisation in the EQUAL shortcut
         return None
+    if a[0] in ("xsc", "can") and base in ("double", "float"):
+        u = collapse(unhx(a[2]))
+        m = []
+        for ch in u:
+            if ch in (0x45, 0x65):
+                break
+            m.append(ch)
+        t = "".join(chr(ch) for ch in m).lstrip("+-")
+        ip, _, fp = t.partition(".")
+        if ip.strip("0") == "" and fp[:1] == "0" and fp.strip("0") != "":
+            return "F40"            # value below 0.1 written with zeros right after the point: manBuf keeps them
+        return None
     if a[0] == "cmp" and base in ("double", "float"):
         return "F34"                # one operand NaN: -1 * INDETERMINATE = -2 is returned
     if "double" in base or "float" in base:
@@ -1319,6 +1361,11 @@ def followups(req, impl, spec=None):
         out.append(("spec", "spec_dec_canon %s %s" % (a[2], c), "1",
                     "canonical representation is not a canonical literal of the same value", req))
         out.append(("impl", "xsc decimal " + c, "ok " + c, "canonical representation is not idempotent", req))
+    if a[0] in ("xsc", "can") and a[1] in ("double", "float") and impl.startswith("ok "):
+        c = impl.split()[1]
+        out.append(("spec", "spec_float_canon %s %s" % (a[2], c), "1",
+                    "canonical representation of the %s is not the canonical literal (3.2.4.2) of the same value" % a[1], req))
+        out.append(("impl", "%s %s %s" % (a[0], a[1], c), "ok " + c, "canonical representation is not idempotent", req))
     return out + followups_bin(req, impl)
 
 
